@@ -45,7 +45,7 @@ INTSETS = st.one_of(st.lists(st.integers(-10 ** 6, 10 ** 9) | st.integers(-20, 2
 
 def strategy(tier):
     hist = gen.tiered(tier, max_ops=8, rejects=False, kinds=KINDS, node_kinds=('int', 'safestr'), attrs=False,
-                       bases=[0, 0, 1, -7, 1000])
+                       bases=[0, 0, 0, 1, -7, 1000, 2 ** 63 - 4, -(2 ** 63) - 40])
     return st.tuples(hist, st.sampled_from(DELIMS), st.sampled_from(COMMENTS), NOISE, DECOR, INTSETS,
                      st.sampled_from(['snap', 'snap', 'inter']), st.tuples(st.integers(0, 30), st.sampled_from(['node', 'time', 'e']))
                      ).flatmap(lambda x: event_log(len(x[0]['nodes'])).map(
